@@ -19,6 +19,7 @@ pub fn run(id: &str, ctx: &Ctx) -> (CheckMeta, Outcome) {
         "C05" => tables::c05(ctx),
         "C06" => codes::c06(ctx),
         "C07" => readers::c07(ctx),
+        "C08" => writers::c08(ctx),
         "C09" => readers::c09(ctx),
         "C12" => writers::c12(ctx),
         _ => {
